@@ -294,6 +294,11 @@ func (cr *c09Run) apiWorker(proc int, seed int64, nOps int, wg *sync.WaitGroup) 
 				// the DHCP handler's hunt entry points, for the address the MAC was offered / leased
 				cr.op("dhcp.StartHunt/StopHunt", func() {
 					a := packet.Addr{MAC: mac, IP: s.DHCPv4IPOffer(mac)}
+					cr.dh.mu.Lock()
+					if x, ok := cr.dh.acked[toMAC(mac)]; ok {
+						a.IP = x // the address the harness side client was acknowledged
+					}
+					cr.dh.mu.Unlock()
 					if !a.IP.IsValid() {
 						a.IP = ips[r.Intn(6)]
 					}
